@@ -244,6 +244,8 @@ class Interp:
         self.fresh_n = 0
         self.loop_hook = None
         self.phi_hook = None
+        self.solver_timeout_ms = 600000
+        self.lazy_feasibility = False   # True: every symbolic branch forks (no solver call); infeasible paths are the harness's business
         self.keep_after_lifetime_end = False   # harnesses that inspect a local object after the function returned
         self.max_call_depth = 200
         self.external_handler = None
@@ -682,6 +684,22 @@ class Interp:
             raise ExecError("solver", "unknown on feasibility query")
         return r == z3.sat
 
+    def _feasible_bounded(self, cond, ms):
+        s = self.solver
+        s.push()
+        try:
+            s.set("timeout", ms)
+            for a in self.assumptions:
+                s.add(a)
+            for c in self.path.pc:
+                s.add(c)
+            s.add(cond)
+            r = s.check()
+        finally:
+            s.pop()
+            s.set("timeout", self.solver_timeout_ms)
+        return r != z3.unsat
+
     def check_vc(self, cond, kind, msg):
         """A-MEM verification condition under the current path condition; violated -> MemViolation with model"""
         s = self.solver
@@ -723,15 +741,22 @@ class Interp:
             d = p.decisions[p.idx]
             p.idx += 1
         else:
-            can_t = self.feasible(cond)
-            can_f = self.feasible(z3.Not(cond))
+            if self.lazy_feasibility is True:
+                can_t = can_f = True      # fork without asking the solver; the harness discharges infeasible paths with its VCs
+            elif self.lazy_feasibility:
+                # bounded effort: a side whose feasibility is not decided within the given milliseconds is explored (over-approximation)
+                can_t = self._feasible_bounded(cond, self.lazy_feasibility)
+                can_f = self._feasible_bounded(z3.Not(cond), self.lazy_feasibility)
+            else:
+                can_t = self.feasible(cond)
+                can_f = self.feasible(z3.Not(cond))
             if can_t and can_f:
                 self.pending.append(p.decisions + [False])
                 d = True
             elif can_t:
-                return True   # implied by the path condition: not a decision point
+                d = True      # implied by the path condition: recorded all the same, so that replays of a decision prefix stay aligned
             elif can_f:
-                return False
+                d = False
             else:
                 raise PathAbort()
             p.decisions.append(d)
